@@ -1,0 +1,33 @@
+//go:build verif
+
+package mutable
+
+// Hooks for the verification harness of property C04 (concurrent writes, flushes, compactions
+// and queries). Compiled only with the `verif` build tag.
+
+// VerifTables returns the memtables a reader view holds: the table that was active when the
+// view was taken and the table that was being flushed (nil when the view left it out because
+// the measurement's files were already published, or when no flush was in progress).
+func (m *MemTables) VerifTables() (active, snapshot *MemTable) {
+	return m.activeTbl, m.snapshotTbl
+}
+
+// VerifSetFlushConcurrency sets how many measurements of one snapshot table are flushed at
+// the same time (the store sets it to the number of CPUs at start-up). With 1 the
+// measurements of a flush are committed one after the other.
+func VerifSetFlushConcurrency(n int) {
+	if n < 1 {
+		n = 1
+	}
+	initConcurLimiter(n)
+}
+
+// VerifFlushed reports the `flushed` flag of a measurement of this table: true once the
+// files holding the measurement's rows of this table were added to the file lists.
+func (t *MemTable) VerifFlushed(mst string) (known, flushed bool) {
+	msInfo, ok := t.msInfoMap[mst]
+	if !ok || msInfo == nil {
+		return false, false
+	}
+	return true, msInfo.flushed
+}
